@@ -10,7 +10,7 @@ CHECKER = 'java -cp tla2tools.jar tlc2.TLC -workers 1 -config Pkt_Trace.cfg Pkt_
 SAFETY = {'NoCrash', 'CallsTerminate', 'LibraryNeverExits', 'UnknownEvent'}
 C11_RULES = {'Locality', 'LocalityCount', 'SamplesPerPacket'} | SAFETY
 C02_RULES = {'HeaderInReturnsDocumentedCode', 'SynthesisInitReturnsDocumentedCode', 'SynthesisReturnsDocumentedCode', 'BlockinReturnsDocumentedCode', 'ReadReturnsDocumentedCode',
-             'HalfRateReturnsDocumentedCode', 'BufferInsideRing', 'PendingNeverNegative', 'LapOutNonNegative', 'BlockinRefusedUntilRead',
+             'HalfRateReturnsDocumentedCode', 'BufferInsideRing', 'PendingNeverNegative', 'LapOutNonNegative', 'BlockinRefusedUntilRead', 'ReadRefusesMoreThanPending',
              'RestartSucceeds', 'InfoClearEmptiesInfo', 'NonHeaderRefused', 'InitNeedsAllHeaders'} | SAFETY
 C01_RULES = {'SamplesPerPacket', 'ValidHeaderAccepted', 'ValidPacketDecodes', 'InitSucceedsAfterHeaders', 'PcmOutReportsPending', 'FreshDecoderHoldsNothing',
              'ReadAdvancesByCount', 'RestartDropsPending', 'HalfRateRefusedFor64', 'HalfRateAccepted', 'HalfRateFlagTakesEffect'} | SAFETY
@@ -197,6 +197,7 @@ def check_c11(pid, tier, seed, replay=None):
     mc, problems = model_check('quick')
     use = [0, 1, 2, 3, 5, 6, 9]
     scns = fam_locality(rng, use, 14 if q else 300, na, thorough=not q)
+    for s_ in scns: s_.prelude = prelude(use)
     res = run_batch(pid, scns, bindir, 'pdh', *TRACE, prelude=prelude(use))
     res['infra'] += pr['infra']
     def nontrivial(s, evs):   # at least one chunk after the disturbance was compared with the clean decode and had to be identical
@@ -231,6 +232,7 @@ def check_c02(pid, tier, seed, replay=None):
     for rep in range(2 if q else 30): scns += [s for s in SY.build_scenarios(random.Random(seed * 100 + rep), cases, 8 if q else 24)]
     for j, s in enumerate(scns): s.name = s.name if not s.name.startswith(('shapes-', 'mutations-')) else f'{s.name}-r{j}'
     problems = problems + gproblems
+    for s_ in scns: s_.prelude = prelude(links)
     res = run_batch(pid, scns, bindir, 'pdh', *TRACE, prelude=prelude(links))
     res['infra'] += pr['infra']
     if any(k == 'infra' for k, _, _ in problems): res['infra'].append('TLC failed on a design-level run')
